@@ -27,6 +27,8 @@ use vharness::*;
 
 mod oracle_c05;
 mod oracle_c06;
+mod oracle_c18;
+mod script_c18;
 mod step;
 use step::Step;
 
@@ -558,6 +560,7 @@ fn main() {
     let thorough = tier_is_thorough();
     let mut n_sessions: u64 = if thorough { 6000 } else { 400 };
     let mut ops_per: u64 = if thorough { 80 } else { 60 };
+    let mut script_name: Option<String> = None;
     let mut i = 1;
     while i < args.len() {
         match args[i].as_str() {
@@ -569,9 +572,18 @@ fn main() {
                 ops_per = args[i + 1].parse().unwrap();
                 i += 1;
             }
+            "--script" => {
+                // scripted exhaustive sessions (currently: c18) instead of generated ones
+                script_name = Some(args[i + 1].clone());
+                i += 1;
+            }
             _ => {}
         }
         i += 1;
+    }
+    if script_name.is_some() {
+        n_sessions = script_c18::n_sessions(thorough);
+        ops_per = 100_000;
     }
     // panics inside the editor are outcomes, not noise
     std::panic::set_hook(Box::new(|_| {}));
@@ -631,8 +643,15 @@ fn main() {
         let mut pending: Vec<Op> = vec![];
         let mut history: Vec<String> = vec![];
 
+        let mut script = script_name.as_ref().map(|_| script_c18::Script::new(sid, thorough));
         for _ in 0..ops_per {
-            let op = gen_op(&mut rng, &s, &pool, &mut pending, uniform);
+            let op = match &mut script {
+                Some(sc) => match sc.next(&s.ed.verif_snapshot()) {
+                    Some(op) => op,
+                    None => break,
+                },
+                None => gen_op(&mut rng, &s, &pool, &mut pending, uniform),
+            };
             let ev = match &op {
                 Op::Key(c, m) => Some(kb.map_with_mod(*c, *m)),
                 _ => None,
@@ -722,6 +741,7 @@ fn main() {
                     // the properties, evaluated directly on the real editor (one module per property)
                     oracle_c05::check(&mut out, &step);
                     oracle_c06::check(&mut out, &step);
+                    oracle_c18::check(&mut out, &step);
                     out.rec(&format!(
                         "ed {} | {} | {} | {} {} => ok | {} | {} | {}",
                         opstr, pre, dict_pre, lay_ans, conv_ans, post, ret, dict_post
@@ -741,6 +761,7 @@ fn main() {
         // the Editor owns the user dictionary; dropping it here keeps `user_ptr` valid above
         drop(s);
     }
+    oracle_c18::finish(&mut out);
     out.stat("sessions", n_sessions);
     out.stat("ops", n_ops);
     out.stat("panics", n_panic);
